@@ -52,7 +52,8 @@ V6Bases == { <<253, 0, 0, 0, 0, 0, 0, 0, 0, 0, 0, 0, 0, 0, 0, 1>>,
              <<32, 1, 13, 184, 171, 205, 0, 18, 128, 0, 255, 1, 127, 64, 0, 93>>,
              <<0, 253, 170, 170, 0, 0, 0, 0, 0, 0, 0, 0, 0, 0, 0, 0>> }
 
-NearBits(p, n) == IF Tier = "thorough" THEN 0..(n - 1)
+NearBits(p, n) == IF Tier = "thorough" /\ n = 32 THEN 0..(n - 1)
+                  ELSE IF Tier = "thorough" THEN ({ b \in 0..(n - 1) : b % 8 \in {0, 7} } \cup ((p - 10)..(p + 9))) \cap (0..(n - 1))
                   ELSE ({p - 9, p - 8, p - 2, p - 1, p, p + 1, p + 7, p + 8, 0, 31, 32, 63, 64, 95, 96, n - 1}) \cap (0..(n - 1))
 
 Probes(base, p) == LET n == 8 * Len(base) IN
